@@ -254,7 +254,22 @@ def check_poly_division(facts, rep):
     w0 = (0, '(zero(), clone(arg1))')
     w1 = (1, '(add(zero(), %s.0), %s.1)' % (C, C))
     inst = 'Poly::div_rem driver|q += step quotient, r = step remainder, deg f - deg g + 1 times'
-    if w0 in shapes and w1 in shapes and rng == {'new(lead_deg(arg2), lead_deg(arg1))'}:
+    # the loop is left only through its exhausted range: a `break` on a property of the remainder ("already constant")
+    # skips the steps that produce the low-order terms of the quotient when the divisor has degree 0
+    early = []
+    try:
+        for p in SymEx(b, havoc_loops=True, max_paths=4000).run():
+            if p.end != 'return':
+                continue
+            nx = [(dk(e.term), e.value) for e in p.branches() if dk(e.term).startswith('discr(next(')]
+            if nx and nx[-1][1] == 1:
+                extra = [dk(e.term)[:60] for e in p.branches() if not dk(e.term).startswith('discr(next(') and not (e.name or '').startswith('assert:')]
+                early.append(extra[-1] if extra else 'unconditionally')
+    except Exception:
+        early = None
+    if early:
+        rep.violation('E3.P1-poly-division', inst, 'the division loop of Poly::div_rem can be left from inside an iteration (%s): fewer than deg f - deg g + 1 steps are taken, the remainder keeps a term of the degree of the divisor (e.g. (3x + 1) / 2 = (3/2)x rem 1) and `divides` answers false for unit divisors' % early[0], where=b.where())
+    elif w0 in shapes and w1 in shapes and rng == {'new(lead_deg(arg2), lead_deg(arg1))'}:
         rep.ok('E3.P1-poly-division', inst, 'starts from (0, self); RangeInclusive(deg rhs, deg self)')
     else:
         s1 = sorted(x[1][:160] for x in shapes if x[0] == 1)
